@@ -2,12 +2,6 @@
 From RainV Require Import Lib Geometry SectionIO PiecesProofs.
 From Coq Require Import ZifyBool.
 
-Lemma skipn_skipn {A} : forall (a b : nat) (l : list A), skipn a (skipn b l) = skipn (b + a) l.
-Proof.
-  intros a b; revert a. induction b as [|b IH]; intros a l; [reflexivity|].
-  destruct l as [|x r]; cbn [skipn plus]; [destruct a; reflexivity|apply IH].
-Qed.
-
 Lemma skipn_repeat {A} (x : A) : forall k m, skipn k (repeat x m) = repeat x (m - k).
 Proof.
   induction k as [|k IH]; intros m; [rewrite Nat.sub_0_r; reflexivity|].
